@@ -11,8 +11,13 @@ fn main() {
     let defs = tgen::defs_from_json(&c["defs"]);
     let refs: Vec<&NamedSchema> = defs.iter().collect();
     let mut ctx = SemTypeContext::new();
-    let a = s.to_sem_type(&refs, &mut ctx).unwrap();
-    let b = t.to_sem_type(&refs, &mut ctx).unwrap();
+    let (a, b) = if c["t_first"].as_bool().unwrap_or(false) {
+        let b = t.to_sem_type(&refs, &mut ctx).unwrap();
+        (s.to_sem_type(&refs, &mut ctx).unwrap(), b)
+    } else {
+        let a = s.to_sem_type(&refs, &mut ctx).unwrap();
+        (a, t.to_sem_type(&refs, &mut ctx).unwrap())
+    };
     println!("A = {:?}\nB = {:?}", a, b);
     let d = a.diff(&b).unwrap();
     println!("A\\B = {:?}", d);
